@@ -41,8 +41,48 @@ impl std::hash::Hasher for IdentHasher {
     }
 }
 
+/// 4-byte elements behind the crate's identity hasher (the other arm of its `write`)
+struct Narrow(ProbOrdMinHash2<probminhash::nohasher::NoHashHasher>);
+impl OmhDyn for Narrow {
+    fn hash_set(&mut self, d: &[u64]) -> Vec<u64> {
+        let n: Vec<u32> = d.iter().map(|x| *x as u32).collect();
+        self.0.hash_set(&n)
+    }
+    fn store(&self) -> (Vec<f64>, Vec<u64>) {
+        self.0.verif_store()
+    }
+    fn set_seed(&mut self, s: u64) {
+        self.0.verif_set_seed(s)
+    }
+}
+
+/// element labels that come in pairs differing by two swapped bytes or by one byte, within the low 4 bytes, all >= 65536
+fn paired32(nel: usize, rng: &mut impl Rng) -> Vec<u64> {
+    let mut v: Vec<u64> = Vec::with_capacity(nel);
+    while v.len() < nel {
+        let mut x = (rng.random::<u32>() | 0x0001_0000) as u64;
+        if v.len() % 2 == 1 {
+            let mut b = (v[v.len() - 1] as u32).to_le_bytes();
+            match rng.random_range(0..3) {
+                0 => {
+                    let i = rng.random_range(0..3);
+                    b.swap(i, i + 1);
+                }
+                1 => b.swap(rng.random_range(0..4), rng.random_range(0..4)),
+                _ => b[rng.random_range(0..4)] ^= rng.random_range(1..=255u8),
+            }
+            x = u32::from_le_bytes(b) as u64;
+        }
+        if !v.contains(&x) {
+            v.push(x);
+        }
+    }
+    v
+}
+
 fn new_dyn(hasher: &str, m: usize, l: usize) -> Box<dyn OmhDyn> {
     match hasher {
+        "nohash32" => Box::new(Narrow(ProbOrdMinHash2::new(m as u32, l))),
         "ident" => Box::new(ProbOrdMinHash2::<IdentHasher>::new(m as u32, l)),
         "nohash" => Box::new(ProbOrdMinHash2::<probminhash::nohasher::NoHashHasher>::new(m as u32, l)),
         _ => Box::new(ProbOrdMinHash2::<FnvHasher>::new(m as u32, l)),
@@ -126,6 +166,9 @@ fn record(a: &Args) {
         let small = emode == "small";
         let base = rng.random_range(0..1000u64);
         let mut elems: Vec<u64> = (0..nel).map(|k| if small { base + k as u64 } else { rng.random::<u64>() }).collect();
+        if emode == "paired32" {
+            elems = paired32(nel, &mut rng);
+        }
         if emode == "sentinel" {
             // extreme identifiers first (with an identity hasher these are the hash values themselves), in a random order
             let mut pool: Vec<u64> = vec![0, u64::MAX, 1, u64::MAX - 1, 1 << 63, (1 << 63) - 1, 1 << 32, (1 << 32) - 1,
@@ -263,7 +306,11 @@ fn freq(a: &Args) {
             };
             for _ in 0..trials {
                 let base = rng.random::<u64>() >> 8;
-                let labels: Vec<u64> = (0..nel).map(|k| if small { base + k as u64 } else { rng.random::<u64>() }).collect();
+                let labels: Vec<u64> = if cell["elems"].as_str().unwrap_or("") == "paired32" {
+                    paired32(nel, &mut rng)
+                } else {
+                    (0..nel).map(|k| if small { base + k as u64 } else { rng.random::<u64>() }).collect()
+                };
                 let da: Vec<u64> = sa.iter().map(|e| labels[*e - 1]).collect();
                 let db: Vec<u64> = sb.iter().map(|e| labels[*e - 1]).collect();
                 match catch(|| (inst.hash_set(&da), inst.hash_set(&db))) {
